@@ -47,6 +47,9 @@ def task_graphs(task):
     elif kind == "large":
         for fam, n, seed in task["items"]:
             yield "large", (fam, n, seed)
+    elif kind == "history":
+        for seed, index in task["items"]:
+            yield "history", (seed, index)
     elif kind == "list":
         for name, G in task["graphs"]:
             yield name, G
@@ -87,7 +90,25 @@ def run_task(task):
     exh = task["kind"] == "exh"
     samples = []
     labels, large_info = [], []
+    canons = []
     for fam, G in task_graphs(task):
+        if fam == "history":
+            from harness import graphhist
+            recs = graphhist.run(mod, *G)
+            tags["histories"] += 1
+            for rec in recs:
+                reqs.append(rec["request"]); labels.append(rec["label"]); reals.append(rec["real"])
+                canons.append(mod.canon_model_hist)
+                tags["history_queries"] += 1
+                for t in rec["tags"]:
+                    tags[t] += 1
+                keys.append(hashlib.blake2b(rec["request"].encode(), digest_size=8).digest())
+                if len(fails) < 5:
+                    fails.extend(rec["fails"][: 5 - len(fails)])
+            if recs and len(samples) < 1:
+                samples.append({"request": recs[-1]["label"], "real": recs[-1]["real"][:200]})
+            continue
+        canons.append(mod.canon_model)
         if fam == "large":
             lf, ln, lseed = G
             desc = {"family": lf, "n": ln, "seed": lseed}
@@ -97,6 +118,7 @@ def run_task(task):
             if depth > limit - 400:
                 # the unchanged recursive code cannot walk this one (RecursionError): outside the stated sizes
                 tags["large_skipped_dfs_depth_near_recursion_limit"] += 1
+                canons.pop()
                 continue
             req = getattr(mod, "CMD_LARGE", mod.CMD) + " " + graphgen.encode(G)
             label = "%s large family=%s n=%d seed=%s" % (mod.CMD, lf, ln, lseed)
@@ -126,8 +148,8 @@ def run_task(task):
     model_raw = Driver(mod.EXE).ask(reqs)
     mism, nmism, ncert, nuncert = [], 0, 0, 0
     cert = getattr(mod, "certified", None)
-    for rq, a, mr in zip(labels, reals, model_raw):
-        b = mod.canon_model(mr)
+    for rq, a, mr, canon in zip(labels, reals, model_raw, canons):
+        b = canon(mr)
         if a != b:
             nmism += 1
             if len(mism) < 5:
@@ -166,6 +188,19 @@ def large_items(escalated: bool):
 def large_tasks(module: str, escalated: bool):
     items, L = large_items(escalated)
     return [{"kind": "large", "items": [it], "module": module} for it in items], L
+
+
+def history_tasks(module: str, seed, count: int, per_task: int = 25):
+    return [{"kind": "history", "items": [("%s" % seed, i) for i in range(lo, min(count, lo + per_task))], "module": module}
+            for lo in range(0, count, per_task)]
+
+
+HISTORY_NOTE = ("history stream: seeded sequences of <= 15 operations (add_node/add_edge/add_catch_edge/remove_node/compute_rpo/"
+                "immediate_dominators) on ONE real Graph object; after every query the answer is compared with the model and judged by "
+                "the oracle, both evaluated on the node/edge sets read off the Graph object at that moment - the model is a pure "
+                "function of the current graph, so any dependence of an answer on the history (stale caches, numbers left over from "
+                "an earlier state) shows up as a divergence; scripted shapes include query, remove a reachable block that is not "
+                "RPO-numbered, query")
 
 
 def sweep(ck, stream, tasks, processes=NPROC):
